@@ -1,6 +1,7 @@
 """C08 — JS reads/writes structs with the real wasm32 repr(C) layout (structural clauses + rustc wasm32 layout oracle)."""
 import re
 import common as C
+import tmpl
 import tables as T
 import wasmprobe
 import exprval
@@ -116,6 +117,120 @@ def js_result_buffer_rules(ck, rule, facts):
               "the receive buffer / flag offset of a fallible JS method is %s: when the error payload is larger than the success payload the flag is read inside the payload and the buffer is too small" % detail, C.loc(f))
 
 
+def _split_top(argstr):
+    out, depth, cur, q = [], 0, "", None
+    for ch in argstr:
+        if q:
+            cur += ch
+            if ch == q:
+                q = None
+            continue
+        if ch in "\"'`":
+            q = ch
+            cur += ch
+            continue
+        if ch in "([{":
+            depth += 1
+        elif ch in ")]}":
+            depth -= 1
+        if ch == "," and depth == 0:
+            out.append(cur.strip())
+            cur = ""
+        else:
+            cur += ch
+    if cur.strip():
+        out.append(cur.strip())
+    return out
+
+
+def _balanced_args(text, start):
+    """text[start] == '(' -> (inside, end index) or (None, None)"""
+    depth = 0
+    for j in range(start, len(text)):
+        if text[j] == "(":
+            depth += 1
+        elif text[j] == ")":
+            depth -= 1
+            if depth == 0:
+                return text[start + 1:j], j
+    return None, None
+
+
+def js_runtime_call_rules(ck, rule, facts):
+    """Every `diplomatRuntime.<fn>(...)` call the JS generator prints passes its named values at the positions where the runtime function declares
+    parameters of those names (size where `size` is expected, align where `align` is expected, ...), and never more arguments than parameters."""
+    tool = facts.tool
+    rtm = C.read_repo("tool/templates/js/runtime.mjs")
+    sigs = {}
+    for m in re.finditer(r"export\s+function\s+(\w+)\s*\(([^)]*)\)", rtm):
+        sigs[m.group(1)] = [a.strip().lstrip(".") for a in m.group(2).split(",") if a.strip()]
+    for cm in re.finditer(r"export\s+class\s+(\w+)[^{]*\{", rtm):
+        cname = cm.group(1)
+        nxt = re.search(r"\nexport\s+(class|function)\s", rtm[cm.end():])
+        body = rtm[cm.end(): cm.end() + nxt.start()] if nxt else rtm[cm.end():]
+        c0 = re.search(r"\n\s*constructor\s*\(([^)]*)\)", body)
+        if c0:
+            sigs["new " + cname] = [a.strip().lstrip(".") for a in c0.group(1).split(",") if a.strip()]
+        for sm in re.finditer(r"\n\s*static\s+(\w+)\s*(?:=\s*)?\(([^)]*)\)", body):
+            sigs[cname + "." + sm.group(1)] = [a.strip().lstrip(".") for a in sm.group(2).split(",") if a.strip()]
+    ck.expect(len(sigs) >= 20 and "writeOptionToArrayBuffer" in sigs, rule, "js-runtime/signatures", "%d runtime signatures" % len(sigs), "could not read the runtime's function signatures (%d found)" % len(sigs), "tool/templates/js/runtime.mjs")
+    # call literals: format!/write! sources of the JS backend (positional `{}` replaced by the argument text) + the JS templates
+    texts = []
+    for f in tool.fn_list:
+        if "::js::" not in f["path"] or "hir" not in f or f.get("exp"):
+            continue
+        for x in C.walk(C.fn_body(f)):
+            if x.get("k") == "macro" and x.get("name") in ("format", "write", "writeln", "format_args"):
+                src = x.get("src", "")
+                m = re.search(r'"((?:[^"\\]|\\.)*)"', src, re.S)
+                if not m or "diplomatRuntime." not in m.group(1):
+                    continue
+                lit = m.group(1)
+                rest = _split_top(src[m.end():].rstrip(")").lstrip(","))
+                it = iter(rest)
+
+                def repl(mm):
+                    try:
+                        a = next(it)
+                    except StopIteration:
+                        return "{?}"
+                    a = a.strip()
+                    return "{%s}" % a.split(".")[-1] if re.fullmatch(r"[\w.&*]+", a) else "{?}"
+                lit = re.sub(r"\{\}", repl, lit.replace("{{", "\x01").replace("}}", "\x02")).replace("\x01", "{").replace("\x02", "}")
+                texts.append((lit, C.loc(f, x.get("ln"))))
+            elif x.get("k") == "lit" and x.get("t") == "str" and "diplomatRuntime." in str(x.get("v")):
+                texts.append((x["v"], C.loc(f, x.get("ln"))))
+    import glob as _g
+    import os as _os
+    for path in sorted(_g.glob(_os.path.join(C.REPO, "tool/templates/js/*.jinja"))):
+        rel = "js/" + _os.path.basename(path)
+        texts.append((re.sub(r"⟦\s*([\w.]+)\s*⟧", lambda mm: "{%s}" % mm.group(1).split(".")[-1], tmpl.flat_file(rel, resolve_includes=False)), "tool/templates/" + rel))
+    ncall = 0
+    for lit, where in texts:
+        for cm in re.finditer(r"(new\s+)?diplomatRuntime\.(\w+)(?:\.(\w+))?\s*\(", lit):
+            name = ("new " + cm.group(2)) if cm.group(1) else (cm.group(2) + ("." + cm.group(3) if cm.group(3) else ""))
+            if name not in sigs:
+                continue
+            inside, _ = _balanced_args(lit, cm.end() - 1)
+            if inside is None:
+                continue
+            args = _split_top(inside)
+            params = sigs[name]
+            ncall += 1
+            problems = []
+            if not any(a.startswith("...") or "{?}" in a for a in args) and not any(p_.startswith("...") for p_ in params) and len(args) > len(params):
+                problems.append("%d arguments for %d parameters" % (len(args), len(params)))
+            for i, a in enumerate(args):
+                mm = re.fullmatch(r"\{(\w+)\}", a)
+                if mm and mm.group(1) in params and i < len(params) and params[i] != mm.group(1) and params[i] in [re.fullmatch(r"\{(\w+)\}", b).group(1) for b in args if re.fullmatch(r"\{(\w+)\}", b)]:
+                    problems.append("`%s` is passed where the runtime expects `%s`" % (mm.group(1), params[i]))
+            key = "js-call/%s@%s" % (name, re.sub(r"\W+", "_", where.split(":")[0].split("/")[-1]))
+            key += "#%d" % sum(1 for i in ck.instances if i["rule"] == rule and i["key"].startswith(key))
+            ck.expect(not problems, rule, key, "(%s)" % ", ".join(args)[:80], "call `diplomatRuntime.%s(%s)` vs runtime signature (%s): %s" % (name.replace("new ", ""), ", ".join(args)[:120], ", ".join(params), "; ".join(problems)), where)
+    if ncall < 15:
+        ck.bad(rule, "js-call/floor", "only %d runtime call sites found in the JS generator and templates" % ncall)
+
+
 def run(ck, facts):
     tool = facts.tool
     adts = facts.all_adts()
@@ -127,6 +242,7 @@ def run(ck, facts):
     ck.rule("R3", "struct_field_info: the padding formulas are exact align-up for every (offset, align) on an exhaustive grid; the field offset is recorded after padding and before the size is added; max_align is the running maximum; final layout = (next_offset, max_align)")
     ck.rule("R4", "typed-array table used to read/write primitives has the kind and width of the wasm32 type")
     ck.rule("R5", "JS runtime reads pointers as u32, result flags as u8, enum discriminants as i32, and writes the option flag at offset + size(T)")
+    ck.rule("R8", "every diplomatRuntime call the generator prints passes named values (size, align, offset, ...) at the positions where the runtime function declares them")
     ck.rule("R7", "values read out of wasm memory use the reader of their wasm32 type (enum: signed i32, pointer: u32, primitive: typed-array table) and a field offset is applied exactly once")
     ck.rule("R6", "legacy-ABI forced padding threshold: a nested two-scalar struct is padded when the outer aggregate has more than two scalars (docs/wasm_abi_quirks.md)")
     ck.not_decided += ["struct_field_info's results for every field order (algorithm correctness beyond the formulas above)", "bytes written by _writeToArrayBuffer for all values", "flattened argument lists for all structs"]
@@ -424,3 +540,4 @@ def run(ck, facts):
     # ---------------- R7 readers used by the deref generator
     js_deref_rules(ck, "R7", facts)
     js_result_buffer_rules(ck, "R2", facts)
+    js_runtime_call_rules(ck, "R8", facts)
